@@ -1,5 +1,6 @@
 import SLModel.Core.Vector
 import SLModel.Lemmas.Vector
+import SLModel.Lemmas.VectorTop
 /-!
 # C29 — vector and hybrid search return correctly scored, filtered hits
 
@@ -225,27 +226,6 @@ theorem vector_only_score_def (p : Plan κ S) (segs : List (Segment κ S)) (limi
 
 /-! ## 3. order -/
 
-/-- the laws of `f32::total_cmp` the order theorems rely on: a strict total order -/
-class TltLaws (S : Type) [Scalar S] : Prop where
-  irrefl : ∀ a : S, tlt a a = false
-  trans : ∀ a b c : S, tlt a b = true → tlt b c = true → tlt a c = true
-  total : ∀ a b : S, a ≠ b → tlt a b = true ∨ tlt b a = true
-
-theorem tlt_asymm [TltLaws S] {a b : S} (h : tlt a b = true) : tlt b a = false := by
-  cases hba : tlt b a with
-  | false => rfl
-  | true =>
-    have := TltLaws.trans a b a h hba
-    rw [TltLaws.irrefl] at this
-    exact absurd this (by simp)
-
-theorem tlt_eq_of_not [TltLaws S] {a b : S} (h1 : tlt a b = false) (h2 : tlt b a = false) : a = b := by
-  by_cases h : a = b
-  · exact h
-  · rcases TltLaws.total a b h with h | h
-    · rw [h1] at h; exact absurd h (by simp)
-    · rw [h2] at h; exact absurd h (by simp)
-
 theorem Hit.before_irrefl [TltLaws S] (a : Hit S) : Hit.before a a = false := by
   simp [Hit.before, TltLaws.irrefl]
 
@@ -406,72 +386,18 @@ theorem wrong_dim_rejected (schema : List (VField κ)) (segs : List (Segment κ 
 
 /-! ## 5. exact nearest neighbours on small segments
 
-Full statement of the property (NOT true of the code, see the negative witnesses below):
+Statement proved here, for every `ef_search`, `k`, `candidate_size` and every eligibility
+predicate: if a segment holds at most `max m 1 + 1` vectors of the field, the constructed
+graph is complete (`flat_graph_complete`), `HnswIndex::search` returns a best-`k` selection of
+all nodes (`flat_graph_exact`: nothing left out is nearer than anything returned), and the
+clause's candidates of the segment are the best `wanted = min(max(candidate_size,k), #vectors)`
+*eligible* documents (`segment_candidates_exact`, `segment_candidates_complete`).  "Best" is up
+to ties in the score: the heap keeps the earlier of two equal scores, so the exact list
+(tie-break by id) is only claimed when the beam covers the segment (`flat_graph_exact_beam`).
 
-  if every segment holds at most `hnsw.m` vectors of the field, the hits are the exact nearest
-  neighbours — i.e. every eligible document of every segment is a candidate of the clause:
-  `∀ doc, keepDoc rt seg doc = true → (vecAt (storeOf seg c.field c.metric) doc).isSome →
-     ∃ x ∈ segCands rt c i seg, x.doc = doc`.
-
-What is proved: the graph built on at most `m + 1` vectors is complete
-(`flat_graph_complete`), a search whose beam covers the segment returns the exact top-k
-(`flat_graph_exact_partial`, hypothesis `(presentIds st).length ≤ max efSearch k`), and the
-candidate collection is exhaustive when the per-segment request size covers the segment
-(`segment_candidates_exact_partial`, hypothesis `present st ≤ max candidate_size k`).  The two
-hypotheses are exactly what the defects need to be violated. -/
-
-theorem Scored.lt_irrefl [TltLaws S] (a : Scored S) : Scored.lt a a = false := by
-  simp [Scored.lt, TltLaws.irrefl]
-
-theorem Scored.lt_trans [TltLaws S] (a b c : Scored S)
-    (hab : Scored.lt a b = true) (hbc : Scored.lt b c = true) : Scored.lt a c = true := by
-  unfold Scored.lt at hab hbc ⊢
-  cases h1 : tlt a.score b.score <;> cases h2 : tlt b.score c.score
-  · simp only [h1, h2, Bool.false_eq_true, if_false] at hab hbc
-    cases h3 : tlt b.score a.score
-    · cases h4 : tlt c.score b.score
-      · have e1 := tlt_eq_of_not h1 h3
-        have e2 := tlt_eq_of_not h2 h4
-        simp only [h3, h4, Bool.false_eq_true, if_false, decide_eq_true_eq] at hab hbc
-        rw [e1, e2]
-        simp only [TltLaws.irrefl, Bool.false_eq_true, if_false, decide_eq_true_eq]
-        omega
-      · simp [h4] at hbc
-    · simp [h3] at hab
-  · simp only [h1, Bool.false_eq_true, if_false] at hab
-    cases h3 : tlt b.score a.score
-    · have e1 := tlt_eq_of_not h1 h3
-      rw [e1]; simp [h2]
-    · simp [h3] at hab
-  · simp only [h2, Bool.false_eq_true, if_false] at hbc
-    cases h4 : tlt c.score b.score
-    · have e2 := tlt_eq_of_not h2 h4
-      rw [← e2]; simp [h1]
-    · simp [h4] at hbc
-  · have := TltLaws.trans _ _ _ h1 h2
-    simp [this]
-
-theorem Scored.lt_total [TltLaws S] (a b : Scored S) (h : a ≠ b) :
-    Scored.lt a b = true ∨ Scored.lt b a = true := by
-  unfold Scored.lt
-  cases h1 : tlt a.score b.score
-  · cases h2 : tlt b.score a.score
-    · have e := tlt_eq_of_not h1 h2
-      have hid : a.id ≠ b.id := by
-        intro hid
-        apply h
-        cases a; cases b
-        simp only at e hid
-        simp [e, hid]
-      simp only [Bool.false_eq_true, if_false, decide_eq_true_eq]
-      omega
-    · simp
-  · simp
-
-theorem scoredGt_strictTotal [TltLaws S] : SL.ISort.StrictTotal (Scored.gt (S := S)) where
-  irrefl a := Scored.lt_irrefl a
-  trans a b c hab hbc := Scored.lt_trans c b a hbc hab
-  total a b h := (Scored.lt_total a b h).symm
+The code before `9cbe548` / `520bc94` violated both (stale `worst_score`, filter after the
+segment's top-k); those variants are kept as `legacySearch` / `legacySegCands` with the
+kernel-checked witnesses `legacy_stale_worst_witness` / `legacy_postfilter_witness`. -/
 
 /-- **flat_graph_exact, part 1**: on a store with at most `max m 1 + 1` vectors the constructed
 graph is complete on the present nodes: the entry point is the first present node and every
@@ -483,10 +409,10 @@ theorem flat_graph_complete (mt : Metric) (st : Store S) (m efc : Nat)
   have inv := buildGraph_inv mt st m efc h
   exact ⟨inv.entry, inv.adj⟩
 
-/-- **flat_graph_exact, part 2** (`_partial`: needs the beam to cover the segment): on such a
-store a search with `max efSearch k ≥ number of vectors` returns exactly the `k` best present
-nodes, i.e. the first `k` of the list of all present nodes sorted by similarity (ties by id). -/
-theorem flat_graph_exact_partial [TltLaws S] (mt : Metric) (st : Store S) (m efc : Nat)
+/-- **flat_graph_exact, with the tie-break**: when additionally the beam covers the segment
+(`max efSearch k ≥ number of vectors`) the result is literally the first `k` of the list of
+all present nodes sorted by similarity, ties by id. -/
+theorem flat_graph_exact_beam [TltLaws S] (mt : Metric) (st : Store S) (m efc : Nat)
     (q : List S) (k efs : Nat) (hreg : (presentIds st).length ≤ max m 1 + 1) (hk : 0 < k)
     (hef : (presentIds st).length ≤ max efs k) :
     search mt st (buildGraph mt st m efc) q k efs =
@@ -507,52 +433,120 @@ theorem flat_graph_exact_partial [TltLaws S] (mt : Metric) (st : Store S) (m efc
     rw [isort_eq, isort_eq]
     exact SL.ISort.isort_perm scoredGt_strictTotal hperm
 
-/-- **exact candidates of a segment** (`_partial`: needs `candidate_size`/`k` to cover the
-segment): if the segment holds at most `max m 1 + 1` vectors of the clause's field and at most
-`max candidate_size k` of them, the clause's candidates in that segment are *all* eligible
-documents of the segment (best first), each with its exact similarity × boost. -/
-theorem segment_candidates_exact_partial [TltLaws S] (rt : Bool) (c : Clause κ S) (i : Nat)
+/-- **flat_graph_exact**: on a store with at most `max m 1 + 1` vectors, for every `k ≥ 1` and
+every `ef_search`, `search` returns a best-`k` selection of the present nodes, best first:
+`min k n` nodes, and no node left out has a higher similarity than a returned one. -/
+theorem flat_graph_exact [OrdLaws S] (mt : Metric) (st : Store S) (m efc : Nat)
+    (q : List S) (k efs : Nat) (hreg : (presentIds st).length ≤ max m 1 + 1) (hk : 1 ≤ k) :
+    TopSel (search mt st (buildGraph mt st m efc) q k efs) ((presentIds st).map (scOf mt st q)) k ∧
+    SortedDesc (search mt st (buildGraph mt st m efc) q k efs) :=
+  search_top mt st _ _ _ _ (buildGraph_inv mt st m efc hreg) q k efs hk
+
+/-- every clause the planner produces asks for at least one neighbour (`k = max(default_k, 1)`
+capped by `MAX_VECTOR_K`), so the hypothesis `1 ≤ max candidate_size k` below always holds -/
+theorem planClause_k_pos (schema : List (VField κ)) (limit : Nat) (vo : Bool) (vq : VQuery κ S)
+    (c : Clause κ S) (h : planClause schema limit vo vq = .ok (some c)) : 1 ≤ c.k := by
+  unfold planClause at h
+  split at h
+  · simp at h
+  · simp only at h
+    split at h
+    · simp at h
+    · split at h
+      · simp at h
+      · split at h
+        · simp at h
+        · split at h
+          · simp at h
+          · simp only [Except.ok.injEq, Option.some.injEq] at h
+            subst h
+            simp only [MAX_VECTOR_K]
+            omega
+
+/-- the per-segment request size of a clause -/
+def wantedOf (c : Clause κ S) (seg : Segment κ S) : Nat :=
+  min (max c.candidateSize c.k) (max (present (storeOf seg c.field c.metric)) 1)
+
+/-- all vector documents of the segment with their similarity to the clause's query -/
+def segScored (c : Clause κ S) (seg : Segment κ S) : List (Scored S) :=
+  (presentIds (storeOf seg c.field c.metric)).map
+    (scOf c.metric (storeOf seg c.field c.metric) c.vector)
+
+/-- **exact candidates of a segment**: if the segment holds at most `max m 1 + 1` vectors of
+the clause's field, then — whatever `ef_search`, `k`, `candidate_size`, deletions, `filter`,
+`vector_filter` and text matcher are — the clause's candidates in that segment are a best-
+`wanted` selection of the segment's *eligible* vector documents, best first, each with
+similarity × boost.  (`1 ≤ max candidate_size k` holds for every planned clause.) -/
+theorem segment_candidates_exact [OrdLaws S] (rt : Bool) (c : Clause κ S) (i : Nat)
     (seg : Segment κ S)
     (hreg : present (storeOf seg c.field c.metric) ≤ max c.m 1 + 1)
-    (hcov : present (storeOf seg c.field c.metric) ≤ max c.candidateSize c.k) :
-    segCands rt c i seg =
-      ((isort Scored.gt ((presentIds (storeOf seg c.field c.metric)).map
-          (scOf c.metric (storeOf seg c.field c.metric) c.vector))).filter
-        (fun s => keepDoc rt seg s.id)).map
-        (fun s => { seg := i, doc := s.id, score := mul s.score c.boost }) := by
+    (hk : 1 ≤ max c.candidateSize c.k) :
+    ∃ K, segCands rt c i seg = K.map (fun s => { seg := i, doc := s.id, score := mul s.score c.boost }) ∧
+      TopSel K ((segScored c seg).filter (fun s => keepDoc rt seg s.id)) (wantedOf c seg) ∧
+      SortedDesc K := by
   unfold segCands
   simp only
-  rw [present_eq] at hreg hcov ⊢
   split
   · rename_i h0
-    have : presentIds (storeOf seg c.field c.metric) = [] := List.length_eq_zero_iff.mp h0
-    simp [this, isort]
+    have hp : presentIds (storeOf seg c.field c.metric) = [] := by
+      rw [present_eq] at h0; exact List.length_eq_zero_iff.mp h0
+    refine ⟨[], rfl, ⟨by simp [segScored, hp], [], by simp [segScored, hp], by intro d hd; simp at hd⟩,
+      List.Pairwise.nil⟩
   · rename_i h0
-    have hk : min (max c.candidateSize c.k) (max (presentIds (storeOf seg c.field c.metric)).length 1) =
-        (presentIds (storeOf seg c.field c.metric)).length := by omega
-    rw [hk, flat_graph_exact_partial c.metric _ c.m c.efc c.vector _ c.efSearch hreg (by omega) (by omega)]
-    rw [List.take_of_length_le (by rw [length_isort, List.length_map]; exact Nat.le_refl _)]
+    have hreg' : (presentIds (storeOf seg c.field c.metric)).length ≤ max c.m 1 + 1 := by
+      rw [← present_eq]; exact hreg
+    have inv := buildGraph_inv c.metric (storeOf seg c.field c.metric) c.m c.efc hreg'
+    have h := fetchLoop_top
+      (fun k => search c.metric (storeOf seg c.field c.metric)
+        (buildGraph c.metric (storeOf seg c.field c.metric) c.m c.efc) c.vector k c.efSearch)
+      (fun s => keepDoc rt seg s.id) (segScored c seg)
+      (min (max c.candidateSize c.k) (max (present (storeOf seg c.field c.metric)) 1))
+      (present (storeOf seg c.field c.metric))
+      (by simp [segScored, present_eq])
+      (fun k hk1 => search_top c.metric _ _ _ _ _ inv c.vector k c.efSearch hk1)
+      (present (storeOf seg c.field c.metric) + 1)
+      (min (max c.candidateSize c.k) (max (present (storeOf seg c.field c.metric)) 1))
+      (by omega) (by omega)
+    exact ⟨_, rfl, h.1, h.2⟩
 
-/-- plain reading of the previous theorem: under the same hypotheses no eligible document of
-the segment is missed -/
-theorem segment_candidates_complete_partial [TltLaws S] (rt : Bool) (c : Clause κ S) (i : Nat)
+/-- plain reading: under the same hypothesis every eligible vector document of the segment
+is a candidate, unless `wanted` candidates were found none of which is farther from the query -/
+theorem segment_candidates_complete [OrdLaws S] (rt : Bool) (c : Clause κ S) (i : Nat)
     (seg : Segment κ S)
     (hreg : present (storeOf seg c.field c.metric) ≤ max c.m 1 + 1)
-    (hcov : present (storeOf seg c.field c.metric) ≤ max c.candidateSize c.k)
+    (hk : 1 ≤ max c.candidateSize c.k)
     (doc : Nat) (hkeep : keepDoc rt seg doc = true)
     (hvec : (vecAt (storeOf seg c.field c.metric) doc).isSome) :
-    ∃ x ∈ segCands rt c i seg, x.seg = i ∧ x.doc = doc := by
-  rw [segment_candidates_exact_partial rt c i seg hreg hcov]
-  refine ⟨{ seg := i, doc := doc, score := mul (simOr c.metric (storeOf seg c.field c.metric) c.vector doc) c.boost }, ?_, rfl, rfl⟩
-  rw [List.mem_map]
-  refine ⟨scOf c.metric (storeOf seg c.field c.metric) c.vector doc, ?_, rfl⟩
-  rw [List.mem_filter]
-  refine ⟨?_, by simpa [scOf] using hkeep⟩
-  rw [mem_isort, List.mem_map]
-  refine ⟨doc, ?_, rfl⟩
-  unfold presentIds
-  rw [List.mem_filter]
-  exact ⟨List.mem_range.mpr (vecAt_lt hvec), hvec⟩
+    (∃ x ∈ segCands rt c i seg, x.seg = i ∧ x.doc = doc) ∨
+    ((segCands rt c i seg).length = wantedOf c seg ∧
+      ∃ K : List (Scored S), segCands rt c i seg = K.map (fun s => { seg := i, doc := s.id, score := mul s.score c.boost }) ∧
+        ∀ r ∈ K, tlt r.score (simOr c.metric (storeOf seg c.field c.metric) c.vector doc) = false) := by
+  obtain ⟨K, hK, htop, _⟩ := segment_candidates_exact rt c i seg hreg hk
+  obtain ⟨D, hp, hdom⟩ := htop.split
+  have hmem : scOf c.metric (storeOf seg c.field c.metric) c.vector doc ∈
+      (segScored c seg).filter (fun s => keepDoc rt seg s.id) := by
+    rw [List.mem_filter]
+    refine ⟨?_, by simpa [scOf] using hkeep⟩
+    unfold segScored
+    rw [List.mem_map]
+    refine ⟨doc, ?_, rfl⟩
+    unfold presentIds
+    rw [List.mem_filter]
+    exact ⟨List.mem_range.mpr (vecAt_lt hvec), hvec⟩
+  rcases List.mem_append.mp (hp.mem_iff.mpr hmem) with h | h
+  · left
+    rw [hK]
+    exact ⟨_, List.mem_map.mpr ⟨_, h, rfl⟩, rfl, rfl⟩
+  · right
+    have hlen : K.length = wantedOf c seg := by
+      have h1 := htop.len
+      have h2 := hp.length_eq
+      simp only [List.length_append] at h2
+      have : 0 < D.length := List.length_pos_of_mem h
+      omega
+    refine ⟨by rw [hK, List.length_map]; exact hlen, K, hK, ?_⟩
+    intro r hr
+    exact hdom _ h r hr
 
 /-! ## 6. compaction never drops vectors
 
@@ -644,22 +638,27 @@ instance : TltLaws Int where
   trans a b c := by simp only [Scalar.tlt, decide_eq_true_eq]; omega
   total a b h := by simp only [Scalar.tlt, decide_eq_true_eq]; omega
 
+instance : OrdLaws Int where
+  lt_eq_tlt _ _ := rfl
+
 namespace Witness
 
 /-- three 1-dimensional vectors 0, 4, −11 (ids 0, 1, 2), default graph parameters -/
 def st3 : Store Int := [some [0], some [4], some [-11]]
 
-/-- non-vacuity of `flat_graph_complete`/`flat_graph_exact_partial`: the graph on `st3` is the
+/-- non-vacuity of `flat_graph_complete`/`flat_graph_exact_beam`: the graph on `st3` is the
 triangle, and a search with a beam of 3 returns the exact top-2 for the query −4 -/
 example : (buildGraph .l2 st3 16 64).nbrs = [[1, 2], [0, 2], [0, 1]] := by decide
 example : (search .l2 st3 (buildGraph .l2 st3 16 64) [-4] 2 3).map (·.id) = [0, 2] := by decide
 
-/-- **negative witness (stale `worst_score`)**: 3 vectors ≤ m = 16, so the graph is complete, but
-`search` with `k = 2`, `ef_search = 1` (beam 2 < 3 vectors) returns nodes 0 and 1 although
-node 2 is nearer to the query than node 1: the bound `worst_score` is read before the
-neighbour loop and the better neighbour 2 is rejected against the entry point's score. -/
-theorem stale_worst_witness :
-    (search .l2 st3 (buildGraph .l2 st3 16 64) [-4] 2 1).map (·.id) = [0, 1] ∧
+/-- **legacy negative witness (stale `worst_score`, repaired by `9cbe548`)**: 3 vectors ≤ m = 16,
+so the graph is complete, but the old search with `k = 2`, `ef_search = 1` (beam 2 < 3
+vectors) returned nodes 0 and 1 although node 2 is nearer to the query than node 1: the bound
+was read before the neighbour loop and the better neighbour 2 was rejected against the entry
+point's score.  The repaired search returns 0 and 2 (non-vacuity of `flat_graph_exact`). -/
+theorem legacy_stale_worst_witness :
+    (legacySearch .l2 st3 (buildGraph .l2 st3 16 64) [-4] 2 1).map (·.id) = [0, 1] ∧
+    (search .l2 st3 (buildGraph .l2 st3 16 64) [-4] 2 1).map (·.id) = [0, 2] ∧
     ((isort Scored.gt ((presentIds st3).map (scOf .l2 st3 [-4]))).take 2).map (·.id) = [0, 2] := by
   decide
 
@@ -716,12 +715,20 @@ def outcomeDocs : Outcome Int → Option (List (Nat × Nat))
 request finds the eligible document -/
 example : outcomeDocs (searchReq [field0] segs2 req2) = some [(0, 1)] := by decide
 
-/-- **negative witness (filter after the per-segment top-k)**: the segment holds 2 ≤ m vectors,
-the request asks for the single nearest neighbour that passes the filter; the graph search
-returns the segment's top-1 (document 0), the filter removes it, and the eligible document 1
-is never considered: no hit. -/
-theorem postfilter_witness :
-    outcomeDocs (searchReq [field0] segs2 req1) = some [] ∧
+/-- the planned clause of `req1` -/
+def clause1 : Clause Nat Int :=
+  { field := 0, vector := [0], k := 1, alpha := 0, efSearch := 40, candidateSize := 1, boost := 1,
+    metric := .l2, m := 16, efc := 64 }
+
+/-- **legacy negative witness (filter after the per-segment top-k, repaired by `520bc94`)**: the
+segment holds 2 ≤ m vectors, the request asks for the single nearest neighbour that passes the
+filter; the old code took the segment's top-1 (document 0), the filter removed it, and the
+eligible document 1 was never considered.  The repaired fetch loop finds it (non-vacuity of
+`segment_candidates_exact`), and so does the whole request. -/
+theorem legacy_postfilter_witness :
+    (legacySegCands false clause1 0 (segs2.getD 0 [])).map (·.doc) = [] ∧
+    (segCands false clause1 0 (segs2.getD 0 [])).map (·.doc) = [1] ∧
+    outcomeDocs (searchReq [field0] segs2 req1) = some [(0, 1)] ∧
     keepDoc false (segs2.getD 0 []) 1 = true ∧
     (vecAt (storeOf (segs2.getD 0 []) 0 .l2) 1).isSome = true := by
   decide
@@ -793,6 +800,9 @@ instance [RatSqrt] : TltLaws Rat where
   total a b h := by
     simp only [Scalar.tlt, decide_eq_true_eq]
     grind
+
+instance [RatSqrt] : OrdLaws Rat where
+  lt_eq_tlt _ _ := rfl
 
 theorem dotFrom_scaled [RatSqrt] (n m : Rat) (hn : n ≠ 0) (hm : m ≠ 0) :
     ∀ (a b : List Rat) (acc : Rat),
